@@ -3,6 +3,7 @@ import PsV.Proofs.MonoTail
 import PsV.Proofs.MonoCoords
 import PsV.Props.C11
 import PsV.Proofs.FitQuad
+import PsV.Proofs.KnotScale
 import Mathlib.LinearAlgebra.Matrix.Notation
 /-!
 # C10 — the monotonic fit's back-transform yields a surface that is non-decreasing along the
@@ -44,6 +45,20 @@ Second part (§8–§10; helpers in `PsV.Proofs.MonoTail`, `PsV.Proofs.MonoCoord
                               specification of C09; the code's 1-d assembly is that objective);
 * `inactive_clause_fails_for_code_penalty` : a 2 × 2 problem on which the matrix the unrepaired code assembles gives a
                               monotonic fit different from the unconstrained one although the constraint is inactive.
+
+Third part (§11; helpers in `PsV.Proofs.KnotScale`, definitions in `PsV.Model.KnotScale`) — rescaled axes:
+* `derivCoef_knot_scale`, `divided_diffs_knot_scale`, `finiteDiff_knot_scale` : multiplying the knots by `h ≠ 0` divides the
+                              `p`-th derivative coefficients, the weights of `divided_diffs` and every entry of the
+                              finite-difference matrix of `calc_penalty` (plain and times `tril`) by `h^p` — no further factor;
+* `penalty_chunk_knot_scale`: so `λ h^(2p) · DᵀD` on the rescaled axis is `λ · DᵀD` at scale 1, entry by entry, in both branches;
+* `Bind_knot_scale`         : the Cox–de Boor values are invariant under `t ↦ h t, x ↦ h x`, `h > 0`;
+* `objective_knot_scale`, `C10_knot_scale_equivariant`, `C10_inactive_on_rescaled_axes` : the objective of the problem on
+                              rescaled axes (`FitProblem.knotScale`: knots and abscissae of dimension `d` times `h_d`, smoothing
+                              times `h_d^(2 p_d)`) is the same function of the coefficients; unconstrained and monotone-constrained
+                              minimisers coincide; the inactive clause transfers to the rescaled problem;
+* `absolute_drop_not_scale_invariant` : `cholmod_l_drop(2^-52, ·)` applied to `finitediff · tril` keeps every entry at knot
+                              spacing 1 and removes every entry at knot spacing `2^20` (penalty order 3: entries `±2^-60, 2^-59`)
+                              — an absolute tolerance in `calc_penalty` breaks the equivariance (seeded change C10-6).
 -/
 namespace PsV
 open Finset
@@ -894,5 +909,145 @@ theorem inactive_clause_fails_for_code_penalty :
   have h1 := kkt_unique_min _ _ cext hspd hk t' hk'.1
   have h2 := kkt_unique_min _ _ t' hspd hk' cext hk.1
   exact h1.2 (le_antisymm h2.1 h1.1)
+
+
+/-! ## 11. rescaled axes: the fit does not depend on the unit of the abscissa -/
+
+section KnotScale
+variable {α : Type} [Field α] [LinearOrder α] [IsStrictOrderedRing α] [A : Arith α] [L : LawfulArith α]
+
+/-- de Boor's recurrence on knots `h·t`: the `p`-th derivative coefficients are those on `t` divided by `h^p`
+(also at repeated knots, where both sides are `0`). -/
+theorem derivCoef_knot_scale (h : α) (hh : h ≠ 0) (t : Int → α) (order p : Nat) (c : Nat → α) (j : Nat) :
+    derivCoef (scaleKnots h t) order p c j = derivCoef t order p c j / h ^ p :=
+  derivCoef_knot_scale' h hh t order p c j
+
+/-- `divided_diffs(order, p, j, h·knots, out)`: every one of the `p+1` weights is the weight for `knots` divided by `h^p`:
+each of the `p` levels of the recursion divides by `delta = (t_{j+order+1} − t_{j+porder})/(order − (porder−1))`, which is
+`h` times larger; nothing else in `divided_diffs` depends on the knots. -/
+theorem divided_diffs_knot_scale (h : α) (hh : h ≠ 0) (t : Int → α) (order p j i : Nat) :
+    (dividedDiffs (scaleKnots h t) order p j).getD i 0 = (dividedDiffs t order p j).getD i 0 / h ^ p :=
+  dividedDiffs_knot_scale' h hh t order p j i
+
+/-- the rows of the `p`-th divided-difference matrix of `calc_penalty` scale by `h^-p`: every entry of `finitediff`
+(`mono = 0`) and of `finitediff · tril` (`mono = 1`, the matrix of the monotonic dimension). -/
+theorem finiteDiff_knot_scale (h : α) (hh : h ≠ 0) (t : Int → α) (order p n r c : Nat) :
+    (finiteDiff (scaleKnots h t) order p n).get r c = (finiteDiff t order p n).get r c / h ^ p
+    ∧ (finiteDiffMono (scaleKnots h t) order p n).get r c = (finiteDiffMono t order p n).get r c / h ^ p :=
+  ⟨finiteDiff_knot_scale' h hh t order p n r c, finiteDiffMono_knot_scale' h hh t order p n r c⟩
+
+/-- non-vacuity / instance: uniform knots `2^20 · i`, third differences: `[-1, 3, -3, 1] / 2^60`; times `tril`: `[0, 1, -2, 1] / 2^60`. -/
+example : dividedDiffs (scaleKnots (1048576 : Rat) (fun i => (i : Rat))) 3 3 0
+      = [-1 / 1152921504606846976, 3 / 1152921504606846976, -3 / 1152921504606846976, 1 / 1152921504606846976]
+    ∧ (List.range 4).map ((finiteDiffMono (scaleKnots (1048576 : Rat) (fun i => (i : Rat))) 3 3 6).get 0)
+      = [0, 1 / 1152921504606846976, -2 / 1152921504606846976, 1 / 1152921504606846976] := by
+  constructor <;> decide +kernel
+
+/-- what `add_penalty_term` adds (`scale · DᵀD`, `DᵀD` = `dtd`) for a dimension on an axis rescaled by `h` with smoothing
+`λ h^(2p)` is, entry by entry, what it adds at scale 1 with smoothing `λ`; in both branches of `calc_penalty`. -/
+theorem penalty_chunk_knot_scale_code (h : α) (hh : h ≠ 0) (lam : α) (t : Int → α) (order p n i j : Nat) :
+    lam * h ^ (2 * p) * (dtd (finiteDiff (scaleKnots h t) order p n)).get i j = lam * (dtd (finiteDiff t order p n)).get i j
+    ∧ lam * h ^ (2 * p) * (dtd (finiteDiffMono (scaleKnots h t) order p n)).get i j
+        = lam * (dtd (finiteDiffMono t order p n)).get i j :=
+  penalty_chunk_knot_scale h hh lam t order p n i j
+
+/-- non-vacuity / instance: `h = 2^20 ≠ 0`, non-uniform knots `t_i = i²`, `λ = 5`, penalty order 2, entry `(2, 3)` of the monotonic branch;
+and the second derivative coefficient `0` of `c_i = i³` on the rescaled knots is the one at scale 1 divided by `2^40`. -/
+example : (1048576 : Rat) ≠ 0
+    ∧ (5 : Rat) * 1048576 ^ (2 * 2) * (dtd (finiteDiffMono (scaleKnots (1048576 : Rat) (fun i => ((i * i : Int) : Rat))) 3 2 6)).get 2 3
+        = 5 * (dtd (finiteDiffMono (fun i => ((i * i : Int) : Rat)) 3 2 6)).get 2 3
+    ∧ (dtd (finiteDiffMono (fun i => ((i * i : Int) : Rat)) 3 2 6)).get 2 3 ≠ 0
+    ∧ derivCoef (scaleKnots (1048576 : Rat) (fun i => ((i * i : Int) : Rat))) 3 2 (fun i => ((i * i * i : Nat) : Rat)) 0
+        = derivCoef (fun i => ((i * i : Int) : Rat)) 3 2 (fun i => ((i * i * i : Nat) : Rat)) 0 / 1048576 ^ 2 := by
+  refine ⟨by norm_num, by decide +kernel, by decide +kernel, by decide +kernel⟩
+
+/-- the Cox–de Boor basis values (right-continuous order-0 indicator of the specification, `a/0 = 0` at repeated knots)
+are invariant under simultaneous scaling of the knots and the abscissa by `h > 0` — every order, every index. -/
+theorem Bind_knot_scale (h : α) (hpos : 0 < h) (t : Int → α) (x : α) (n : Nat) (i : Int) :
+    Bind (indR (scaleKnots h t) (h * x)) (scaleKnots h t) (h * x) n i = Bind (indR t x) t x n i :=
+  Bind_knot_scale' h hpos t x n i
+
+example : Bind (indR (scaleKnots (1048576 : Rat) (fun i => (i : Rat))) (1048576 * (5/2)))
+      (scaleKnots (1048576 : Rat) (fun i => (i : Rat))) (1048576 * (5/2)) 2 1 = 3/4 := by decide +kernel
+
+/-- **The objective on rescaled axes is the same objective.**  `P.knotScale hs`: knots and abscissae of dimension `d`
+multiplied by `h_d > 0`, smoothing `λ_d` replaced by `λ_d h_d^(2 p_d)`; data, weights, orders and penalty orders unchanged.
+For every coefficient vector the penalised weighted least-squares objective of the specification has the same value. -/
+theorem objective_knot_scale (hs : List α) (hpos : ∀ h ∈ hs, 0 < h) (P : FitProblem α) (c : Nat → α) :
+    objective (P.knotScale hs) c = objective P c :=
+  objective_knotScale hs hpos P c
+
+/-- **Knot-scale equivariance of the unconstrained and of the monotonic fit** (exact arithmetic).  On the rescaled axes
+1. the objective is the same function of the coefficients;
+2. `c` minimises it over all coefficient vectors iff `c` minimises the original objective (the unconstrained fits coincide);
+3. a cumulative sum of non-negative increments `t` (the tables the monotonic fit ranges over, any shape `s1 × n × s2`)
+   minimises it over all such tables iff it does so for the original objective (the monotonic fits coincide). -/
+theorem C10_knot_scale_equivariant (hs : List α) (hpos : ∀ h ∈ hs, 0 < h) (P : FitProblem α) (s1 n s2 : Nat) :
+    (∀ c, objective (P.knotScale hs) c = objective P c) ∧
+    (∀ c, (∀ c', objective (P.knotScale hs) c ≤ objective (P.knotScale hs) c') ↔ (∀ c', objective P c ≤ objective P c')) ∧
+    (∀ t : Nat → α,
+      (∀ t' : Nat → α, (∀ p, p < s1 * n * s2 → 0 ≤ t' p) →
+        objective (P.knotScale hs) (cumsumLoop (· + ·) s1 n s2 t) ≤ objective (P.knotScale hs) (cumsumLoop (· + ·) s1 n s2 t'))
+      ↔ (∀ t' : Nat → α, (∀ p, p < s1 * n * s2 → 0 ≤ t' p) →
+        objective P (cumsumLoop (· + ·) s1 n s2 t) ≤ objective P (cumsumLoop (· + ·) s1 n s2 t'))) := by
+  have e := objective_knotScale hs hpos P
+  refine ⟨e, fun c => ?_, fun t => ?_⟩
+  · simp only [e]
+  · simp only [e]
+
+end KnotScale
+
+/-- non-vacuity: the example problem of C09 (`exP`: knots `0,1,2,3`, order 1, penalty order 1, `λ = 1`) on an axis
+rescaled by `2^20`: the knots become `2^20 i`, the smoothing `2^40`, the abscissae `2^20 x`; the scale is positive and
+the objective at `c = (0, 1)` is the same number. -/
+example : (∀ h ∈ [(1048576 : Rat)], 0 < h) ∧ (exP.knotScale [1048576]).smooth = [1099511627776]
+    ∧ ((exP.knotScale [1048576]).dims.map fun d => d.knots 3) = [3145728]
+    ∧ objective (exP.knotScale [1048576]) (fun p => (p : Rat)) = objective exP (fun p => (p : Rat)) := by
+  refine ⟨by simp, by decide +kernel, by decide +kernel, by decide +kernel⟩
+
+/-- **The inactive clause on rescaled axes.**  If at scale 1 the unconstrained minimiser is the cumulative sum of
+non-negative increments `t` (normal matrix positive definite), then on the rescaled axes the same table is the unconstrained
+minimiser, it minimises the objective over all tables with non-negative increments, and it is the only such minimiser:
+the monotonic fit at scale `h` returns the coefficients of the unconstrained fit at scale `h` — and both are the fits at
+scale 1.  (What the check judges in one dimension, where the code's objective is this one: `code_objective_1d`.) -/
+theorem C10_inactive_on_rescaled_axes (P : FitProblem Rat) (hP : NormalEq.PosDef P.ncoef (Mf P)) (hs : List Rat)
+    (hpos : ∀ h ∈ hs, 0 < h) (s1 n s2 : Nat) (hN : s1 * n * s2 = P.ncoef) (t : Nat → Rat)
+    (hmin : ∀ c' : Nat → Rat, objective P (cumsumLoop (· + ·) s1 n s2 t) ≤ objective P c') :
+    (∀ c' : Nat → Rat, objective (P.knotScale hs) (cumsumLoop (· + ·) s1 n s2 t) ≤ objective (P.knotScale hs) c') ∧
+    (∀ t' : Nat → Rat, (∀ p, p < s1 * n * s2 → 0 ≤ t' p) →
+      objective (P.knotScale hs) (cumsumLoop (· + ·) s1 n s2 t)
+        ≤ objective (P.knotScale hs) (cumsumLoop (· + ·) s1 n s2 t')) ∧
+    (∀ t' : Nat → Rat, objective (P.knotScale hs) (cumsumLoop (· + ·) s1 n s2 t')
+        ≤ objective (P.knotScale hs) (cumsumLoop (· + ·) s1 n s2 t) →
+      ∀ p, p < s1 * n * s2 → t' p = t p) := by
+  have e := objective_knotScale hs hpos P
+  obtain ⟨h1, h2⟩ := inactive_constraint_objective P hP s1 n s2 hN t hmin
+  simp only [e]
+  exact ⟨hmin, h1, h2⟩
+
+/-- non-vacuity: `exP`, shape 1 × 2 × 1, increments `t = (1, 0)` (the example of `inactive_constraint_objective`), axis scale `2^20` -/
+example : NormalEq.PosDef exP.ncoef (Mf exP) ∧ (∀ h ∈ [(1048576 : Rat)], 0 < h) ∧ 1 * 2 * 1 = exP.ncoef :=
+  ⟨exP_posDef, by simp, rfl⟩
+
+/-- **An absolute drop tolerance is not scale-invariant** (the modelled reason why the seeded change C10-6 — `cholmod_l_drop(DBL_EPSILON,
+finitediff, c)` after `finitediff = finitediff · tril` in `calc_penalty` — breaks the equivariance).  Uniform knots `t_i = i`,
+spline order 3, penalty order 3, 6 coefficients, tolerance `2^-52`, axis scale `h = 2^20`:
+1. at scale 1 the drop removes nothing but exact zeros: the matrix `D · tril` (rows `[0, 1, −2, 1, 0, 0]`, …) is unchanged;
+2. at scale `h` its genuine entries are those divided by `h³ = 2^60` (`finiteDiff_knot_scale`), e.g. `2^-60 ≠ 0` …
+3. … all of them below the tolerance: the drop removes **every** entry,
+4. so `DᵀD = 0`: the smoothing penalty of the monotonic dimension vanishes whatever the smoothing `λ h⁶` is, whereas
+5. the equivariant value of the entry `(1,1)` of `λ h⁶ · DᵀD` is `λ · 1 ≠ 0` (here `λ = 1`). -/
+theorem absolute_drop_not_scale_invariant :
+    (∀ r < 3, ∀ c < 6, ((finiteDiffMono (fun i => (i : Rat)) 3 3 6).dropTol (1 / 4503599627370496)).get r c
+        = (finiteDiffMono (fun i => (i : Rat)) 3 3 6).get r c) ∧
+    (finiteDiffMono (scaleKnots (1048576 : Rat) (fun i => (i : Rat))) 3 3 6).get 0 1 = 1 / 1152921504606846976 ∧
+    (∀ r < 3, ∀ c < 6,
+      ((finiteDiffMono (scaleKnots (1048576 : Rat) (fun i => (i : Rat))) 3 3 6).dropTol (1 / 4503599627370496)).get r c = 0) ∧
+    (∀ i < 6, ∀ j < 6,
+      (dtd ((finiteDiffMono (scaleKnots (1048576 : Rat) (fun i => (i : Rat))) 3 3 6).dropTol (1 / 4503599627370496))).get i j = 0) ∧
+    (1 : Rat) * 1048576 ^ (2 * 3) * (dtd (finiteDiffMono (scaleKnots (1048576 : Rat) (fun i => (i : Rat))) 3 3 6)).get 1 1 = 1 := by
+  refine ⟨by decide +kernel, by decide +kernel, by decide +kernel, by decide +kernel, by decide +kernel⟩
+
+-- (`absolute_drop_not_scale_invariant` has no hypotheses: nothing to instantiate.)
 
 end PsV
